@@ -128,6 +128,27 @@ def cident(s):
     return s
 
 
+def strip_deref_addr(text):
+    """`(*(&(E)))` -> `(E)`: the lowering of unique_ptr::get() / operator-> on a field produces this shape; it is the same lvalue in C, and
+    cbmc 6.11's value-set simplifier crashes (SIGSEGV in simplify_inequality) on some nestings of it."""
+    pat = '(*(&('
+    pos = 0
+    while True:
+        p = text.find(pat, pos)
+        if p < 0:
+            return text
+        depth, q = 1, p + len(pat)
+        while q < len(text) and depth:
+            depth += {'(': 1, ')': -1}.get(text[q], 0)
+            q += 1
+        # text[q-1] closes the `&(` group; the two closers of `(*(` must follow directly
+        if depth == 0 and text[q:q + 2] == '))':
+            text = text[:p] + '(' + text[p + len(pat):q - 1] + ')' + text[q + 2:]
+            pos = p
+        else:
+            pos = p + 1
+
+
 class Translator:
     def __init__(self, unit):
         self.u = unit
@@ -810,7 +831,7 @@ class Translator:
         parts += ['%s: %s' % (c, ', '.join(ts)) for c, ts in groups.items()]
         return '; '.join(parts)
 
-    def weave_loop(self, names=None):
+    def weave_loop(self, names=None, loopvar=None):
         i = self.loop_ord
         self.loop_ord += 1
         lc = self.contract.get('loops', {}).get(i)
@@ -818,6 +839,9 @@ class Translator:
             return ''
         # $range / $i stand for the lowered range-for's range pointer and index (their numbering depends on earlier temporaries)
         sub = (lambda t: t.replace('$range', names[0]).replace('$i', names[1])) if names else (lambda t: t)
+        if loopvar:
+            # $loopvar: the variable a plain `for` declares in its init statement (its name is incidental to the invariant)
+            sub = (lambda t, _lv=loopvar: t.replace('$loopvar', _lv))
         out = ''
         if 'assigns' in lc:
             out += '  __CPROVER_assigns(%s)\n' % sub(self.assigns_text(lc['assigns']))
@@ -899,7 +923,8 @@ class Translator:
                 i += ';'
             c = self.cond(cond) if cond else ''
             s = self.expr(inc) if inc else ''
-            lc = self.weave_loop()
+            lvs = [d.get('name') for d in (init or {}).get('inner', []) if d.get('kind') == 'VarDecl'] if (init or {}).get('kind') == 'DeclStmt' else []
+            lc = self.weave_loop(loopvar=lvs[0] if len(lvs) == 1 else None)
             self.loop_depth_push()
             b = self.stmt_block(body)
             self.loop_depth_pop()
@@ -2339,4 +2364,4 @@ class Translator:
             for p, bdy in self.ctor_wrappers.values():
                 out.append(bdy)
         out.append(self.u.get('harness', ''))
-        return '\n'.join(out) + '\n'
+        return strip_deref_addr('\n'.join(out) + '\n')
